@@ -19,6 +19,7 @@ import torch
 
 from tjv.rt import gen
 from tjv.rt.aggs import make_agg
+from ._autojac import as_container
 
 RULE = ("history = sequence of 1..3 steps over one graph, >=1 step a torchjd call. backward family (templates "
         "nosave / save / mixed: ops that save no tensor such as x*2, ops that do such as x*x, sin, exp): steps "
@@ -30,11 +31,22 @@ RULE = ("history = sequence of 1..3 steps over one graph, >=1 step a torchjd cal
         "r, k), tb = loss_i.backward(retain_graph=r), agh = autograd.grad(loss_i, task_params_i, r) (head only), "
         "agt = autograd.grad(features, shared, r) (trunk only). Twin: jd/jdf -> torch.autograd.backward(T, ones, "
         "inputs=..., retain_graph=r); mtl -> torch.autograd.backward(losses, inputs=all params, retain_graph=r). "
-        "Comparison stops after the first failing step. distinct = (family, template, history); non-trivial = a "
+        "Comparison stops after the first failing step. Variants of the mtl programs (field var): 2 or 3 tasks; "
+        "DEAD heads whose loss has an exactly zero gradient (multiplied by 0.0 / by a zero mask tensor / relu of a "
+        "negative number) so that a chunk of rows of the Jacobian has an all-zero cotangent (last chunk, first chunk, "
+        "all chunks); tasks that list NO parameter (empty tasks_params entry: the head's parameter is not listed, or "
+        "is frozen = does not require grad) with or without saved tensors in the head; extra probe agf = "
+        "autograd.grad(loss_i, features) (works for parameter-free heads); chunk sizes up to 3. Variants of the "
+        "backward programs: dead outputs (multiplied by 0.0). Parameter lists of the torchjd calls are given as list "
+        "/ tuple / one-shot iterator / generator (field cont). "
+        "distinct = (family, template, variant, history); non-trivial = a "
         "torchjd step is followed by another step (its effect on the graph is observed)")
-BOUNDS = "histories of <= 3 calls; 3 + 4 program templates; 2 inputs / 2 shared params, 2 outputs / 2 tasks"
+BOUNDS = "histories of <= 3 calls; 3 + 4 program templates; 2 inputs / 2 shared params, 2 outputs / 2..3 tasks"
 EXHAUSTIVE = ("thorough: ALL histories of length <= 3 containing a torchjd call over the step alphabets above "
-              "(28 steps for the backward family x 3 templates, 22 steps for the mtl family x 4 templates)")
+              "(28 steps for the backward family x 3 templates, 22 steps for the mtl family x 4 templates); ALL "
+              "histories of length <= 2 containing a torchjd call over the extended mtl alphabet (k up to 3, probes "
+              "of every task, agf) x 4 templates x every variant of VARIANTS (dead / empty / frozen patterns over 2 "
+              "and 3 tasks)")
 
 BW_TEMPLATES = ["nosave", "save", "mixed"]
 MTL_TEMPLATES = ["save_save", "nosave_nosave", "save_nosave", "nosave_save"]  # trunk_heads
@@ -67,6 +79,36 @@ def _mtl_alphabet():
     return al
 
 
+def _mtl_alphabet_ext(nt):
+    """Alphabet of the variant programs: nt tasks, chunk sizes up to 3, the probe agf of every task."""
+    al = []
+    for r in (False, True):
+        for k in (None, 1, 2, 3):
+            al.append({"op": "mtl", "r": r, "k": k})
+            al.append({"op": "jdf", "r": r, "k": k})
+        for i in range(nt):
+            al.append({"op": "tb", "i": i, "r": r})
+            al.append({"op": "agh", "i": i, "r": r})
+            al.append({"op": "agf", "i": i, "r": r})
+        al.append({"op": "agt", "r": r})
+    return al
+
+
+def _var(nt, dead=None, dk="mul0", empty=None, frozen=None):
+    z = [0] * nt
+    return {"nt": nt, "dead": dead or z, "dk": dk, "empty": empty or z, "frozen": frozen or z}
+
+
+DEAD_KINDS = ["mul0", "mask", "relu"]
+# patterns in which the LAST chunk of rows is dead while an earlier one is alive come first (then the mirrors)
+DEAD_PATTERNS = {2: [[0, 1], [1, 0], [1, 1]], 3: [[0, 0, 1], [0, 1, 1], [1, 0, 0], [0, 1, 0], [1, 1, 0], [1, 1, 1]]}
+EMPTY_PATTERNS = {2: [[0, 1], [1, 0], [1, 1]], 3: [[0, 0, 1], [1, 0, 0], [0, 1, 1], [1, 1, 1]]}
+VARIANTS = ([_var(nt, dead=d, dk=dk) for nt in (2, 3) for d in DEAD_PATTERNS[nt] for dk in DEAD_KINDS]
+            + [_var(nt, empty=e) for nt in (2, 3) for e in EMPTY_PATTERNS[nt]]
+            + [_var(nt, frozen=e) for nt in (2, 3) for e in EMPTY_PATTERNS[nt][:3]]
+            + [_var(2, dead=[0, 1], empty=[0, 1]), _var(2, dead=[0, 1], empty=[1, 0]),
+               _var(3, dead=[0, 0, 1], dk="mask", empty=[0, 1, 1]), _var(3)])
+
 _JD = ("jd", "jdf", "mtl")
 
 
@@ -87,8 +129,18 @@ def cases(tier, seed, focus=None):
                     i += 1
                     yield {"fam": fam, "tpl": tpl, "steps": h, "agg": AGGS[i % 3], "seed": i % 17,
                            "dtype": "float64" if i % 4 else "float32"}
+        for var in VARIANTS:
+            al = _mtl_alphabet_ext(var["nt"])
+            for tpl in MTL_TEMPLATES:
+                for h in itertools.product(al, repeat=2):
+                    if any(s["op"] in _JD for s in h):
+                        i += 1
+                        yield {"fam": "mtl", "tpl": tpl, "steps": list(h), "agg": AGGS[i % 3], "seed": i % 17,
+                               "dtype": "float64" if i % 4 else "float32", "var": var,
+                               "cont": CONTAINERS[i % len(CONTAINERS)]}
         return
     out = []
+    rng2 = random.Random(13013000 + seed)  # stream of the later families (the earlier cases are kept as they were)
     for fam, tpls, al in (("bw", BW_TEMPLATES, _bw_alphabet()), ("mtl", MTL_TEMPLATES, _mtl_alphabet())):
         jd = [s for s in al if s["op"] in _JD]
         for j in range(200):
@@ -104,10 +156,71 @@ def cases(tier, seed, focus=None):
                 h = [dict(rng.choice(jd), r=False), rng.choice(probes)] + h[2:]
             if not any(s["op"] in _JD for s in h):
                 h[rng.randrange(n)] = rng.choice(jd)
-            out.append({"fam": fam, "tpl": rng.choice(tpls), "steps": h, "agg": rng.choice(AGGS),
-                        "seed": rng.randrange(17), "dtype": rng.choice(["float64", "float32"])})
+            case = {"fam": fam, "tpl": rng.choice(tpls), "steps": h, "agg": rng.choice(AGGS),
+                    "seed": rng.randrange(17), "dtype": rng.choice(["float64", "float32"])}
+            r2 = random.Random(rng2.randrange(10**9))
+            if j % 2 == 1:
+                case["cont"] = r2.choice(CONTAINERS)
+            if fam == "bw" and j % 4 == 1:
+                case["var"] = {"dead": r2.choice([[0, 1], [1, 0], [1, 1]])}
+            if fam == "mtl" and j % 4 in (1, 2):
+                _quick_variant(case, j, r2)
+            out.append(case)
+    # variant programs again, in cases of their own: half of them the dead-head shape, a quarter the empty-entry shape
+    al = _mtl_alphabet_ext(3)
+    for j in range(160):
+        r2 = random.Random(rng2.randrange(10**9))
+        nsteps = r2.choice([2, 3, 3])
+        h = [dict(r2.choice(_mtl_alphabet())) for _ in range(nsteps)]
+        shape = [2, 1, 2, 5][j % 4]
+        if shape == 1:
+            s = dict(r2.choice([x for x in al if x["op"] in _JD]), r=True)
+            h[0], h[1] = s, dict(s)
+        if not any(x["op"] in _JD for x in h):
+            h[r2.randrange(nsteps)] = dict(r2.choice([x for x in al if x["op"] in _JD]))
+        case = {"fam": "mtl", "tpl": r2.choice(MTL_TEMPLATES), "steps": h, "agg": r2.choice(AGGS),
+                "seed": r2.randrange(17), "dtype": r2.choice(["float64", "float32"]), "cont": r2.choice(CONTAINERS)}
+        _quick_variant(case, shape, r2)
+        out.append(case)
     for c in out:
         yield c
+
+
+CONTAINERS = ["list", "iter", "gen", "tuple"]
+
+
+def _quick_variant(case, j, r2):
+    """Gives an mtl case a program variant; the directed shapes of histories get the variants they are about."""
+    nt = r2.choice([2, 3])
+    al = _mtl_alphabet_ext(nt)
+    var = _var(nt, dk=r2.choice(DEAD_KINDS))
+    pats_d, pats_e = DEAD_PATTERNS[nt], EMPTY_PATTERNS[nt]
+    h = case["steps"]
+    if j % 8 == 1:  # identical retained calls: with tasks that list no parameter
+        key = "frozen" if r2.random() < 0.3 else "empty"
+        var[key] = r2.choice(pats_e)
+        if h[0]["op"] != "mtl" and r2.random() < 0.6:
+            h[0] = h[1] = {"op": "mtl", "r": True, "k": r2.choice([None, 1, 2, 3])}
+        if len(h) > 2 or r2.random() < 0.5:  # then a probe of one head
+            probe = {"op": r2.choice(["agf", "agh", "tb"]), "i": r2.randrange(nt), "r": r2.random() < 0.5}
+            h[2:] = [probe]
+    elif j % 8 == 2:  # unretained call then a probe of one part: with dead heads (zero cotangent chunks)
+        var["dead"] = r2.choice(pats_d[:2] + pats_d)
+        if r2.random() < 0.7:
+            h[0] = {"op": "mtl", "r": False, "k": r2.choice([1, 1, 2, 3])}
+            h[1] = r2.choice([s for s in al if s["op"] in ("agt", "jdf", "agf", "agh")])
+            case["tpl"] = r2.choice(["save_save", "save_nosave", "save_save", "nosave_save"])
+    else:
+        if r2.random() < 0.5:
+            var["dead"] = r2.choice(pats_d)
+        if r2.random() < 0.5:
+            var["frozen" if r2.random() < 0.3 else "empty"] = r2.choice(pats_e)
+        for q in range(len(h)):  # steps of the extended alphabet (third task, agf, k = 3)
+            if r2.random() < 0.4:
+                h[q] = r2.choice(al)
+        if not any(s["op"] in _JD for s in h):
+            h[0] = r2.choice([s for s in al if s["op"] in _JD])
+    case["var"] = var
 
 
 # ----------------------------------------------------------------------------- programs
@@ -117,7 +230,7 @@ def _rt(g, shape, dtype):
     return (torch.rand(shape, generator=g, dtype=torch.float64) + 0.25).to(dtype)
 
 
-def build_bw(tpl, seed, dtype):
+def build_bw(tpl, seed, dtype, var=None):
     g = torch.Generator().manual_seed(seed)
     a = _rt(g, (3,), dtype).requires_grad_(True)
     b = _rt(g, (2,), dtype).requires_grad_(True)
@@ -137,10 +250,16 @@ def build_bw(tpl, seed, dtype):
         y2 = t * 1.5 + n
     else:
         raise KeyError(tpl)
-    return {"outs": [y1, y2], "inputs": [a, b], "leaves": [a, b]}
+    outs = [y1, y2]
+    if var:  # dead outputs: exactly zero rows of the Jacobian
+        outs = [o * 0.0 if d else o for o, d in zip(outs, var["dead"])]
+    return {"outs": outs, "inputs": [a, b], "leaves": [a, b]}
 
 
-def build_mtl(tpl, seed, dtype):
+def build_mtl(tpl, seed, dtype, var=None):
+    """var (see _var): nt tasks; dead[i]: the loss of task i has an exactly zero gradient (dk: how); empty[i]: the
+    parameter of head i is NOT listed in tasks_params; frozen[i]: it does not require grad (and is not listed)."""
+    var = var or _var(2)
     g = torch.Generator().manual_seed(seed)
     trunk_save, heads_save = [x == "save" for x in tpl.split("_")]
     s1 = _rt(g, (3,), dtype).requires_grad_(True)
@@ -151,18 +270,28 @@ def build_mtl(tpl, seed, dtype):
     else:
         f1 = s1.narrow(0, 0, 2) + torch.add(s2, s2.flip(0), alpha=2.0)
         f2 = s1.sum() + s2.mean() - s1.unbind(0)[2]
-    losses, tps = [], []
-    for i in range(2):
-        p = _rt(g, (2,), dtype).requires_grad_(True)
+    losses, tps, ps = [], [], []
+    for i in range(var["nt"]):
+        p = _rt(g, (2,), dtype).requires_grad_(not var["frozen"][i])
+        ps.append(p)
         if heads_save:
             loss = (f1 * p).sum() * f2 + (p * p).sum() * (i + 1.0)
         else:
             loss = f1.sum() if i == 0 else f1.cumsum(0).sum()
             loss = torch.add(loss, f2, alpha=2.0 - 3.0 * i) + torch.add(p.sum(), p.mean(), alpha=i + 1.0)
+        if var["dead"][i]:
+            if var["dk"] == "mul0":
+                loss = loss * 0.0
+            elif var["dk"] == "mask":
+                loss = (torch.zeros((), dtype=dtype) * loss).sum()
+            else:
+                loss = torch.relu(-(loss * loss) - 1.0)
         losses.append(loss)
-        tps.append([p])
+        tps.append([] if var["empty"][i] or var["frozen"][i] else [p])
+    listed = [s1, s2] + [q for tp in tps for q in tp]
     return {"losses": losses, "features": [f1, f2], "tasks_params": tps, "shared": [s1, s2],
-            "leaves": [s1, s2] + [q for tp in tps for q in tp]}
+            "listed": listed, "leaves": [s1, s2] + [q for q in ps if q.requires_grad],
+            "head_inputs": [[q] if q.requires_grad else [f1, f2] for q in ps]}
 
 
 # ----------------------------------------------------------------------------- executing one step
@@ -172,7 +301,7 @@ def _ones(ts):
     return [torch.ones_like(t) for t in ts]
 
 
-def _step(fam, prog, step, agg_spec, real: bool):
+def _step(fam, prog, step, agg_spec, real: bool, cont: str = "list"):
     """Executes one step on prog; raises what the underlying call raises."""
     from torchjd import backward, mtl_backward
 
@@ -183,7 +312,8 @@ def _step(fam, prog, step, agg_spec, real: bool):
         ins = prog["inputs"]
         if op == "jd" and real:
             m = sum(t.numel() for t in T)
-            backward(T, make_agg(agg_spec, m, dtype), inputs=ins, retain_graph=r, parallel_chunk_size=step["k"])
+            backward(T, make_agg(agg_spec, m, dtype), inputs=as_container(ins, cont), retain_graph=r,
+                     parallel_chunk_size=step["k"])
         elif op in ("jd", "tb"):
             torch.autograd.backward(T, _ones(T), inputs=ins, retain_graph=r)
         elif op == "ag":
@@ -194,21 +324,25 @@ def _step(fam, prog, step, agg_spec, real: bool):
     feats, shared = prog["features"], prog["shared"]
     if op == "mtl":
         if real:
-            mtl_backward(prog["losses"], feats, make_agg(agg_spec, 2, dtype), tasks_params=prog["tasks_params"],
-                         shared_params=shared, retain_graph=r, parallel_chunk_size=step["k"])
+            mtl_backward(prog["losses"], feats, make_agg(agg_spec, len(prog["losses"]), dtype),
+                         tasks_params=[as_container(tp, cont) for tp in prog["tasks_params"]],
+                         shared_params=as_container(shared, cont), retain_graph=r, parallel_chunk_size=step["k"])
         else:
-            torch.autograd.backward(prog["losses"], retain_graph=r, inputs=prog["leaves"])
+            torch.autograd.backward(prog["losses"], retain_graph=r, inputs=prog["listed"])
     elif op == "jdf":
         if real:
             m = sum(f.numel() for f in feats)
-            backward(feats, make_agg(agg_spec, m, dtype), inputs=shared, retain_graph=r,
+            backward(feats, make_agg(agg_spec, m, dtype), inputs=as_container(shared, cont), retain_graph=r,
                      parallel_chunk_size=step["k"])
         else:
             torch.autograd.backward(feats, _ones(feats), inputs=shared, retain_graph=r)
     elif op == "tb":
         prog["losses"][step["i"]].backward(retain_graph=r)
-    elif op == "agh":
-        torch.autograd.grad(prog["losses"][step["i"]], prog["tasks_params"][step["i"]], retain_graph=r)
+    elif op == "agh":  # head only: w.r.t. the head's parameter (the features when that parameter is frozen)
+        torch.autograd.grad(prog["losses"][step["i"]], prog["head_inputs"][step["i"]], retain_graph=r,
+                            allow_unused=True)
+    elif op == "agf":  # head only, whatever the head's parameters
+        torch.autograd.grad(prog["losses"][step["i"]], feats, retain_graph=r, allow_unused=True)
     elif op == "agt":
         torch.autograd.grad(feats, shared, _ones(feats), retain_graph=r)
     else:
@@ -227,9 +361,12 @@ def run_case(case):
     fam, tpl, steps = case["fam"], case["tpl"], case["steps"]
     dtype = torch.float64 if case["dtype"] == "float64" else torch.float32
     build = build_bw if fam == "bw" else build_mtl
-    p1, p2 = build(tpl, case["seed"], dtype), build(tpl, case["seed"], dtype)
+    var, cont = case.get("var"), case.get("cont", "list")
+    p1, p2 = build(tpl, case["seed"], dtype, var), build(tpl, case["seed"], dtype, var)
     sig = f"{fam}|{tpl}|" + ";".join(
         f"{s['op']}{s.get('t', s.get('i', ''))}{'R' if s['r'] else 'F'}{s.get('k', '')}" for s in steps)
+    if var:
+        sig += "|" + ",".join(f"{k}{''.join(map(str, v)) if isinstance(v, list) else v}" for k, v in sorted(var.items()))
     first_jd = next(i for i, s in enumerate(steps) if s["op"] in _JD)
     base = {"sig": sig, "nontrivial": first_jd < len(steps) - 1}
     prev_delta = None
@@ -238,7 +375,7 @@ def run_case(case):
         torch.manual_seed(0)
         real_err = twin_err = None
         try:
-            _step(fam, p1, step, case["agg"], real=True)
+            _step(fam, p1, step, case["agg"], real=True, cont=cont)
         except Exception as e:  # success / failure of the step IS the observation
             real_err = e
         try:
